@@ -253,7 +253,9 @@ def oracle(case, res, hist):
                                f"sent before close {sent}, delivered before EOF {toks}"))
                 else:
                     V.append(v("reorder", key0, f"sent {sent}, delivered {toks}"))
-            late = [t for _, t, seq in D if seq > first_eof]
+            # (pop time of the item versus record time of the EOF observation: sound, because the
+            #  EOF is recorded after the endmarker was taken from the queue)
+            late = [t for popseq, t, seq in D if popseq > first_eof]
             if late:
                 V.append(v("item-after-eof", key0, f"{late} obtained after the first EOF observation"))
     # --- observers: probes after their observation
